@@ -197,7 +197,7 @@ func exec(op string) (res string) {
 		return polSchema(w)
 	case "pfresh":
 		return polFresh()
-	case "prepl", "xprepl", "ppick":
+	case "prepl", "xprepl", "ppick", "spick":
 		return polQuery(w)
 	case "strategy":
 		cls, err := vh.UnHex(w[1])
